@@ -55,7 +55,8 @@ Lemma frame_json p w idx f : frame_ok f ->
     jget k_module_offset j = Some (match fr_module f with Some (_, base) => jhex w (fr_instr f - base) | None => JNull end) /\
     jget k_function_offset j = Some (match fr_function_base f with Some base => jhex w (fr_instr f - base) | None => JNull end) /\
     jget k_missing_symbols j = Some (JBool (match fr_function f with Some _ => false | None => true end)) /\
-    jget k_trust j = Some (JStr (trust_name (fr_trust f))).
+    jget k_trust j = Some (JStr (trust_name (fr_trust f))) /\
+    jget k_module j = Some (jopt (fun m => JStr (basename (fst m))) (fr_module f)).
 Proof.
   intros (Hi & Hm & Hf). unfold json_of_frame.
   assert (E1 : match fr_module f with
@@ -102,6 +103,7 @@ Qed.
 Lemma thread_json p w t tj : json_of_thread p w t = Ret tj ->
   exists fs, json_of_frames p w 0%nat (th_frames t) = Ret fs /\
     tj = JObj [(k_frame_count, JNum (Z.of_nat (length (th_frames t)))); (k_frames, JArr fs);
+               (k_last_error_value, jopt JStr (th_last_error t));
                (k_thread_id, JNum (th_id t)); (k_thread_name, jopt JStr (th_name t))] /\
     length fs = length (th_frames t).
 Proof.
@@ -124,22 +126,48 @@ Qed.
 (* ------------------------------------------------------------------ modules *)
 Definition module_ok (m : modul) : Prop := 0 <= m_base m /\ 0 <= m_size m /\ m_base m + m_size m < two64.
 
-Lemma module_json p w m : module_ok m ->
-  json_of_module p w m = Ret (JObj [(k_base_addr, jhex w (m_base m)); (k_end_addr, jhex w (m_base m + m_size m));
-                                    (k_filename, JStr (m_name m))]).
+(* the element of "modules" for a module whose end address does not overflow *)
+Definition mod_obj (w : pwidth) (certs : list (list Z * list Z)) (stats : list (list Z * symstat)) (m : modul) : json :=
+  let name := basename (m_file m) in
+  let st := lookup name stats in
+  let had := match st with Some _ => true | None => false end in
+  let s := match st with Some s => s | None => default_stat end in
+  JObj [(k_base_addr, jhex w (m_base m));
+        (k_cert_subject, jopt JStr (lookup name certs));
+        (k_code_id, JStr (m_code_id m));
+        (k_corrupt_symbols, JBool (ss_corrupt s));
+        (k_debug_file, JStr (basename (match ss_extra s with Some e => fst e | None => m_debug_file m end)));
+        (k_debug_id, JStr (match ss_extra s with Some e => snd e | None => m_debug_id m end));
+        (k_end_addr, jhex w (m_base m + m_size m));
+        (k_filename, JStr name);
+        (k_loaded_symbols, JBool (ss_loaded s));
+        (k_missing_symbols, JBool (had && negb (ss_loaded s)));
+        (k_symbol_url, jopt JStr (ss_url s));
+        (k_version, jopt JStr (m_version m))].
+Definition unl_obj (w : pwidth) (certs : list (list Z * list Z)) (m : modul) : json :=
+  JObj [(k_base_addr, jhex w (m_base m));
+        (k_cert_subject, jopt JStr (lookup (m_file m) certs));
+        (k_code_id, JStr (m_code_id m));
+        (k_end_addr, jhex w (m_base m + m_size m));
+        (k_filename, JStr (m_file m))].
+
+Lemma chk_add_ok p tag a b : 0 <= a -> 0 <= b -> a + b < two64 -> chk_add p 64 tag a b = Ret (a + b).
 Proof.
-  intros (H1 & H2 & H3). unfold json_of_module, chk_add, chk. change (2 ^ 64) with two64.
-  assert (E : (0 <=? m_base m + m_size m) && (m_base m + m_size m <? two64) = true)
-    by (apply andb_true_iff; split; [apply Z.leb_le|apply Z.ltb_lt]; lia).
+  intros H1 H2 H3. unfold chk_add, chk. change (2 ^ 64) with two64.
+  assert (E : (0 <=? a + b) && (a + b <? two64) = true) by (apply andb_true_iff; split; [apply Z.leb_le|apply Z.ltb_lt]; lia).
   rewrite E. reflexivity.
 Qed.
 
-Lemma modules_json p w l js : Forall module_ok l -> omap (json_of_module p w) l = Ret js ->
-  js = map (fun m => JObj [(k_base_addr, jhex w (m_base m)); (k_end_addr, jhex w (m_base m + m_size m));
-                           (k_filename, JStr (m_name m))]) l.
+Lemma module_json p w certs stats m : module_ok m -> json_of_module p w certs stats m = Ret (mod_obj w certs stats m).
+Proof. intros (H1 & H2 & H3). unfold json_of_module. rewrite chk_add_ok by assumption. reflexivity. Qed.
+Lemma unloaded_json p w certs m : module_ok m -> json_of_unloaded p w certs m = Ret (unl_obj w certs m).
+Proof. intros (H1 & H2 & H3). unfold json_of_unloaded. rewrite chk_add_ok by assumption. reflexivity. Qed.
+
+Lemma omap_pure {A B} (f : A -> outcome B) (g : A -> B) (P : A -> Prop) l js :
+  (forall a, P a -> f a = Ret (g a)) -> Forall P l -> omap f l = Ret js -> js = map g l.
 Proof.
-  intros Hok H. apply omap_spec in H. revert Hok. induction H as [|m j t js' Hm _ IH]; intro Hok; [reflexivity|].
-  inversion Hok; subst. rewrite module_json in Hm by assumption. inversion Hm. cbn [map]. f_equal. apply IH. assumption.
+  intros Hf Hok H. apply omap_spec in H. revert Hok. induction H as [|m j t js' Hm _ IH]; intro Hok; [reflexivity|].
+  inversion Hok; subst. rewrite Hf in Hm by assumption. inversion Hm. cbn [map]. f_equal. apply IH. assumption.
 Qed.
 
 (* ------------------------------------------------------------------ the crashing-thread copy *)
@@ -156,13 +184,14 @@ Proof.
   intro Hne. cbn [add_registers jget]. rewrite assoc_insert by exact Hne. rewrite firstn_skipn. reflexivity.
 Qed.
 
-Lemma crashing_copy_spec regs i c f0 fs id nm :
-  let tj := JObj [(k_frame_count, c); (k_frames, JArr (f0 :: fs)); (k_thread_id, id); (k_thread_name, nm)] in
+Lemma crashing_copy_spec regs i c f0 fs le id nm :
+  let tj := JObj [(k_frame_count, c); (k_frames, JArr (f0 :: fs)); (k_last_error_value, le); (k_thread_id, id); (k_thread_name, nm)] in
   let cc := crashing_copy regs i tj in
   jget k_threads_index cc = Some (JNum (Z.of_nat i)) /\
   jget k_frame_count cc = jget k_frame_count tj /\
   jget k_thread_id cc = jget k_thread_id tj /\
   jget k_thread_name cc = jget k_thread_name tj /\
+  jget k_last_error_value cc = jget k_last_error_value tj /\
   jget k_frames cc = Some (JArr (add_registers regs f0 :: fs)).
 Proof. cbv zeta. cbn [crashing_copy]. repeat split; reflexivity. Qed.
 
@@ -197,12 +226,8 @@ Lemma state_json p s : state_ok s ->
     jget k_threads j = Some (JArr ts) /\
     jget k_thread_count j = Some (JNum (Z.of_nat (length ts))) /\
     jget k_pid j = Some (jopt JNum (s_pid s)) /\
-    jget k_modules j = Some (JArr (map (fun m => JObj [(k_base_addr, jhex (s_width s) (m_base m));
-                                                       (k_end_addr, jhex (s_width s) (m_base m + m_size m));
-                                                       (k_filename, JStr (m_name m))]) (s_modules s))) /\
-    jget k_unloaded_modules j = Some (JArr (map (fun m => JObj [(k_base_addr, jhex (s_width s) (m_base m));
-                                                       (k_end_addr, jhex (s_width s) (m_base m + m_size m));
-                                                       (k_filename, JStr (m_name m))]) (s_unloaded s))) /\
+    jget k_modules j = Some (JArr (map (mod_obj (s_width s) (s_certinfo s) (s_symstats s)) (s_modules s))) /\
+    jget k_unloaded_modules j = Some (JArr (map (unl_obj (s_width s) (s_certinfo s)) (s_unloaded s))) /\
     jget k_crashing_thread j =
       match s_requesting s with
       | None => None
@@ -220,23 +245,24 @@ Proof.
   { apply omap_total. eapply Forall_impl; [|exact Ht]. intros t Hf. unfold json_of_thread.
     destruct (frames_total p (s_width s) (th_frames t) Hf 0%nat) as (fs & Hfs). rewrite Hfs. cbn [obind]. eauto. }
   destruct Hts as (ts & Hts). rewrite Hts. cbn [obind].
-  assert (Hms : exists ms, omap (json_of_module p (s_width s)) (s_modules s) = Ret ms).
+  assert (Hms : exists ms, omap (json_of_module p (s_width s) (s_certinfo s) (s_symstats s)) (s_modules s) = Ret ms).
   { apply omap_total. eapply Forall_impl; [|exact Hm]. intros m Hk. rewrite module_json by exact Hk. eauto. }
   destruct Hms as (ms & Hms). rewrite Hms. cbn [obind].
-  assert (Hus : exists us, omap (json_of_module p (s_width s)) (s_unloaded s) = Ret us).
-  { apply omap_total. eapply Forall_impl; [|exact Hu]. intros m Hk. rewrite module_json by exact Hk. eauto. }
+  assert (Hus : exists us, omap (json_of_unloaded p (s_width s) (s_certinfo s)) (s_unloaded s) = Ret us).
+  { apply omap_total. eapply Forall_impl; [|exact Hu]. intros m Hk. rewrite unloaded_json by exact Hk. eauto. }
   destruct Hus as (us & Hus). rewrite Hus. cbn [obind].
-  pose proof (modules_json p _ _ _ Hm Hms) as Em. pose proof (modules_json p _ _ _ Hu Hus) as Eu.
-  pose proof (omap_spec _ _ _ Hts) as F2.
+  pose proof (omap_pure _ _ _ _ _ (fun m Hk => module_json p _ _ _ m Hk) Hm Hms) as Em.
+  pose proof (omap_pure _ _ _ _ _ (fun m Hk => unloaded_json p _ _ m Hk) Hu Hus) as Eu.
+  pose proof (omap_spec _ _ _ Hts) as F2. clear Hms Hus. subst ms us.
   assert (Hlen : length ts = length (s_threads s)) by (symmetry; eapply Forall2_len; exact F2).
   destruct (s_requesting s) as [i|].
   - destruct (nth_error (s_threads s) i) as [t|] eqn:Et.
     + destruct (Forall2_nth _ _ _ F2 i t Et) as (tj & Etj & _). rewrite Etj.
       destruct (th_frames t) eqn:Ef.
-      * eexists; exists ts. split; [reflexivity|]. rewrite <- Em, <- Eu, Hlen, Etj. repeat split; try reflexivity; exact F2.
-      * eexists; exists ts. split; [reflexivity|]. rewrite <- Em, <- Eu, Hlen, Etj. repeat split; try reflexivity; exact F2.
+      * eexists; exists ts. split; [reflexivity|]. rewrite Hlen, Etj. repeat split; try reflexivity; exact F2.
+      * eexists; exists ts. split; [reflexivity|]. rewrite Hlen, Etj. repeat split; try reflexivity; exact F2.
     + exfalso. apply nth_error_None in Et. lia.
-  - eexists; exists ts. split; [reflexivity|]. rewrite <- Em, <- Eu, Hlen. repeat split; try reflexivity; exact F2.
+  - eexists; exists ts. split; [reflexivity|]. rewrite Hlen. repeat split; try reflexivity; exact F2.
 Qed.
 
 (* ------------------------------------------------------------------ enumerations (finite check) *)
